@@ -378,66 +378,158 @@ Proof.
 Qed.
 
 (* ---- scan_doctype ------------------------------------------------------------------------------------ *)
-Lemma scan_doctype_step q inB c t :
-  scan_doctype q inB (c :: t) =
-  (if (c =? q) && negb (q =? 0) then r <- scan_doctype 0 inB t ;; Some (1 + fst r, snd r)
-   else if ((c =? 34) || (c =? 39)) && negb (negb (q =? 0)) then r <- scan_doctype c inB t ;; Some (1 + fst r, snd r)
-   else if ((c =? 91) || (c =? 93)) && negb (negb (q =? 0)) then r <- scan_doctype q (c =? 91) t ;; Some (1 + fst r, snd r)
-   else if (c =? 62) && negb (negb (q =? 0)) && negb inB then Some (0, true)
-   else if c =? 0 then Some (0, false)
-   else r <- scan_doctype q inB t ;; Some (1 + fst r, snd r)).
+Lemma nzl_dt_comment_open : nzl dt_comment_open. Proof. repeat constructor; lia. Qed.
+Lemma nzl_dt_skip_pat sk : nzl (dt_skip_pat sk).
+Proof. unfold dt_skip_pat. destruct (sk =? 1); repeat constructor; lia. Qed.
+
+Lemma len_dt_skip_pat sk : Z.of_nat (length (dt_skip_pat sk) - 1) = len (dt_skip_pat sk) - 1.
+Proof. unfold dt_skip_pat. destruct (sk =? 1); reflexivity. Qed.
+
+Lemma at_l_true_len pat : forall x, nzl pat -> at_l pat (x ++ [0]) = Some true -> len pat <= len x.
+Proof.
+  induction pat as [|p pt IH]; intros x Hp H.
+  - change (len (@nil Z)) with 0. apply len_nonneg.
+  - inversion Hp; subst. destruct x as [|c x]; cbn [app at_l] in H.
+    + destruct (Z.eqb_spec 0 p); [congruence|discriminate].
+    + destruct (c =? p); [|discriminate]. rewrite !len_cons. specialize (IH x ltac:(assumption) H). lia.
+Qed.
+
+Lemma scan_doctype_step0 q inB sk c t :
+  scan_doctype 0 q inB sk (c :: t) =
+  (if c =? 0 then Some (0, false)
+   else if negb (sk =? 0) then
+     m <- at_l (dt_skip_pat sk) (c :: t) ;;
+     if m then bump (scan_doctype (length (dt_skip_pat sk) - 1) q inB 0 t)
+     else bump (scan_doctype 0 q inB sk t)
+   else if (c =? q) && negb (q =? 0) then bump (scan_doctype 0 0 inB 0 t)
+   else if ((c =? 34) || (c =? 39)) && negb (negb (q =? 0)) then bump (scan_doctype 0 c inB 0 t)
+   else
+     mc <- (if (c =? 60) && inB && negb (negb (q =? 0)) then at_l dt_comment_open (c :: t) else Some false) ;;
+     if mc then bump (scan_doctype 3 q inB 1 t)
+     else
+       mp <- (if (c =? 60) && inB && negb (negb (q =? 0))
+              then match t with [] => None | c1 :: _ => Some (c1 =? 63) end
+              else Some false) ;;
+       if mp then bump (scan_doctype 1 q inB 2 t)
+       else if ((c =? 91) || (c =? 93)) && negb (negb (q =? 0)) then bump (scan_doctype 0 q (c =? 91) 0 t)
+       else if (c =? 62) && negb (negb (q =? 0)) && negb inB then Some (0, true)
+       else bump (scan_doctype 0 q inB 0 t)).
 Proof. reflexivity. Qed.
 
-Lemma scan_doctype_spec l : forall q inB n f, scan_doctype q inB l = Some (n, f) ->
+Lemma scan_doctype_stepS p q inB sk c t :
+  scan_doctype (S p) q inB sk (c :: t) = bump (scan_doctype p q inB sk t).
+Proof. reflexivity. Qed.
+
+Lemma scan_doctype_spec l : forall pend q inB sk n f,
+  (forall i, 0 <= i < Z.of_nat pend -> getz l i <> 0) ->
+  scan_doctype pend q inB sk l = Some (n, f) ->
   0 <= n < len l /\ (forall i, 0 <= i < n -> getz l i <> 0) /\ getz l n = (if f then 62 else 0).
 Proof.
-  induction l as [|c t IH]; intros q inB n f H; [discriminate|].
-  rewrite scan_doctype_step in H. rewrite len_cons. pose proof (len_nonneg t).
-  assert (Hrec : forall a b, c <> 0 ->
-            (r <- scan_doctype a b t ;; Some (1 + fst r, snd r)) = Some (n, f) ->
+  induction l as [|c t IH]; intros pend q inB sk n f Hpend H; [discriminate|].
+  rewrite len_cons. pose proof (len_nonneg t).
+  assert (Hrec : forall p' a b s', c <> 0 -> (forall i, 0 <= i < Z.of_nat p' -> getz t i <> 0) ->
+            bump (scan_doctype p' a b s' t) = Some (n, f) ->
             0 <= n < 1 + len t /\ (forall i, 0 <= i < n -> getz (c :: t) i <> 0) /\
             getz (c :: t) n = (if f then 62 else 0)).
-  { intros a b Hc Hr. destruct (scan_doctype a b t) as [[m g]|] eqn:Hm; [|discriminate].
+  { intros p' a b s' Hc Hp Hr. unfold bump in Hr.
+    destruct (scan_doctype p' a b s' t) as [[m g]|] eqn:Hm; [|discriminate].
     bsimpl_in Hr. spinj Hr.
-    destruct (IH _ _ _ _ Hm) as (H1 & H2 & H3). split; [lia|]. split.
+    destruct (IH _ _ _ _ _ _ Hp Hm) as (H1 & H2 & H3). split; [lia|]. split.
     - intros i Hi. destruct (Z.eq_dec i 0) as [->|]; [exact Hc|].
       rewrite getz_cons_pos by lia. apply H2. lia.
     - rewrite getz_cons_succ by lia. exact H3. }
-  destruct ((c =? q) && negb (q =? 0)) eqn:E1.
-  { apply (Hrec 0 inB); [|exact H]. b2p. lia. }
-  destruct (((c =? 34) || (c =? 39)) && negb (negb (q =? 0))) eqn:E2.
-  { apply (Hrec c inB); [|exact H]. lia. }
-  destruct (((c =? 91) || (c =? 93)) && negb (negb (q =? 0))) eqn:E3.
-  { apply (Hrec q (c =? 91)); [|exact H]. lia. }
+  destruct pend as [|p].
+  2:{ rewrite scan_doctype_stepS in H. apply (Hrec p q inB sk); [| |exact H].
+      - specialize (Hpend 0 ltac:(lia)). exact Hpend.
+      - intros i Hi. specialize (Hpend (1 + i) ltac:(lia)). rewrite getz_cons_succ in Hpend by lia. exact Hpend. }
+  rewrite scan_doctype_step0 in H.
+  assert (H0p : forall i, 0 <= i < Z.of_nat 0 -> getz t i <> 0) by (intros; lia).
+  destruct (Z.eqb_spec c 0) as [->|N0].
+  { apply some_pair_inj in H. destruct H as [-> ->]. split; [lia|]. split; [intros; lia|]. reflexivity. }
+  destruct (negb (sk =? 0)) eqn:Esk.
+  { destruct (at_l (dt_skip_pat sk) (c :: t)) as [m|] eqn:Hm; [|discriminate]. cbn [option_bind] in H.
+    destruct m; [|apply (Hrec 0%nat q inB sk N0 H0p H)].
+    apply (Hrec (length (dt_skip_pat sk) - 1)%nat q inB 0 N0); [|exact H].
+    destruct (at_l_true _ _ Hm) as (_ & Hg). intros i Hi. rewrite len_dt_skip_pat in Hi.
+    specialize (Hg (1 + i) ltac:(lia)). rewrite getz_cons_succ in Hg by lia. rewrite Hg.
+    apply nzl_getz; [apply nzl_dt_skip_pat|lia]. }
+  destruct ((c =? q) && negb (q =? 0)); [apply (Hrec 0%nat 0 inB 0 N0 H0p H)|].
+  destruct (((c =? 34) || (c =? 39)) && negb (negb (q =? 0))); [apply (Hrec 0%nat c inB 0 N0 H0p H)|].
+  destruct (if (c =? 60) && inB && negb (negb (q =? 0)) then at_l dt_comment_open (c :: t) else Some false) as [mc|] eqn:Hmc;
+    [|discriminate]. cbn [option_bind] in H.
+  destruct mc.
+  { apply (Hrec 3%nat q inB 1 N0); [|exact H].
+    destruct ((c =? 60) && inB && negb (negb (q =? 0))); [|discriminate].
+    destruct (at_l_true _ _ Hmc) as (_ & Hg). intros i Hi. change (Z.of_nat 3) with 3 in Hi.
+    specialize (Hg (1 + i) ltac:(change (len dt_comment_open) with 4; lia)). rewrite getz_cons_succ in Hg by lia. rewrite Hg.
+    apply nzl_getz; [apply nzl_dt_comment_open|change (len dt_comment_open) with 4; lia]. }
+  destruct (if (c =? 60) && inB && negb (negb (q =? 0)) then match t with [] => None | c1 :: _ => Some (c1 =? 63) end else Some false)
+    as [mp|] eqn:Hmp; [|discriminate]. cbn [option_bind] in H.
+  destruct mp.
+  { apply (Hrec 1%nat q inB 2 N0); [|exact H].
+    destruct ((c =? 60) && inB && negb (negb (q =? 0))); [|discriminate].
+    destruct t as [|c1 t']; [discriminate|]. intros i Hi. assert (i = 0) by lia. subst i. rewrite getz_cons_0.
+    assert (c1 = 63) by (injection Hmp as E; lia). lia. }
+  destruct (((c =? 91) || (c =? 93)) && negb (negb (q =? 0))); [apply (Hrec 0%nat q (c =? 91) 0 N0 H0p H)|].
   destruct ((c =? 62) && negb (negb (q =? 0)) && negb inB) eqn:E4.
   { apply some_pair_inj in H. destruct H as [-> ->]. assert (c = 62) by lia. subst c.
     split; [lia|]. split; [intros; lia|]. reflexivity. }
-  destruct (Z.eqb_spec c 0) as [->|N5].
-  { apply some_pair_inj in H. destruct H as [-> ->]. split; [lia|]. split; [intros; lia|]. reflexivity. }
-  apply (Hrec q inB N5 H).
+  apply (Hrec 0%nat q inB 0 N0 H0p H).
 Qed.
 
-Lemma scan_doctype_total a : forall q inB, exists r, scan_doctype q inB (a ++ [0]) = Some r.
+Lemma bump_some o : (exists r, o = Some r) -> exists r, bump o = Some r.
+Proof. intros (r & ->). cbn. eauto. Qed.
+
+Lemma scan_doctype_total a : forall pend q inB sk, Z.of_nat pend <= len a ->
+  exists r, scan_doctype pend q inB sk (a ++ [0]) = Some r.
 Proof.
-  induction a as [|c a IH]; intros q inB; cbn [app]; rewrite scan_doctype_step.
-  - change (0 =? 34) with false. change (0 =? 39) with false. change (0 =? 91) with false.
-    change (0 =? 93) with false. change (0 =? 62) with false. change (0 =? 0) with true. cbn [orb andb].
-    destruct ((0 =? q) && negb (q =? 0)) eqn:E; [exfalso; lia|]. eauto.
-  - destruct ((c =? q) && negb (q =? 0)). { destruct (IH 0 inB) as (r & ->). cbn. eauto. }
-    destruct (((c =? 34) || (c =? 39)) && negb (negb (q =? 0))). { destruct (IH c inB) as (r & ->). cbn. eauto. }
-    destruct (((c =? 91) || (c =? 93)) && negb (negb (q =? 0))). { destruct (IH q (c =? 91)) as (r & ->). cbn. eauto. }
+  induction a as [|c a IH]; intros pend q inB sk Hp; cbn [app].
+  - change (len (@nil Z)) with 0 in Hp. destruct pend; [|lia]. rewrite scan_doctype_step0. cbn. eauto.
+  - rewrite len_cons in Hp. destruct pend as [|p].
+    2:{ rewrite scan_doctype_stepS. apply bump_some. apply IH. lia. }
+    pose proof (len_nonneg a).
+    rewrite scan_doctype_step0. destruct (c =? 0); [eauto|].
+    destruct (negb (sk =? 0)).
+    { destruct (at_l_total (dt_skip_pat sk) (c :: a) (nzl_dt_skip_pat sk)) as (m & Hm). cbn [app] in Hm.
+      rewrite Hm. cbn [option_bind]. destruct m; apply bump_some; apply IH; [|lia].
+      pose proof (at_l_true_len (dt_skip_pat sk) (c :: a) (nzl_dt_skip_pat sk) Hm) as Hl.
+      rewrite len_cons in Hl. rewrite len_dt_skip_pat. lia. }
+    destruct ((c =? q) && negb (q =? 0)); [apply bump_some; apply IH; lia|].
+    destruct (((c =? 34) || (c =? 39)) && negb (negb (q =? 0))); [apply bump_some; apply IH; lia|].
+    assert (Hmc : exists mc, (if (c =? 60) && inB && negb (negb (q =? 0)) then at_l dt_comment_open (c :: a ++ [0]) else Some false) = Some mc
+                  /\ (mc = true -> 3 <= len a)).
+    { destruct ((c =? 60) && inB && negb (negb (q =? 0))); [|eexists; split; [reflexivity|discriminate]].
+      destruct (at_l_total dt_comment_open (c :: a) nzl_dt_comment_open) as (m & Hm). cbn [app] in Hm.
+      exists m. split; [exact Hm|]. intros ->.
+      pose proof (at_l_true_len dt_comment_open (c :: a) nzl_dt_comment_open Hm) as Hl.
+      rewrite len_cons in Hl. change (len dt_comment_open) with 4 in Hl. lia. }
+    destruct Hmc as (mc & -> & Hmc). cbn [option_bind].
+    destruct mc; [apply bump_some; apply IH; specialize (Hmc eq_refl); change (Z.of_nat 3) with 3; lia|].
+    assert (Hmp : exists mp, (if (c =? 60) && inB && negb (negb (q =? 0))
+                              then match a ++ [0] with [] => None | c1 :: _ => Some (c1 =? 63) end else Some false) = Some mp
+                  /\ (mp = true -> 1 <= len a)).
+    { destruct ((c =? 60) && inB && negb (negb (q =? 0))); [|eexists; split; [reflexivity|discriminate]].
+      destruct a as [|c1 a']; cbn [app].
+      - eexists. split; [reflexivity|]. cbn. discriminate.
+      - eexists. split; [reflexivity|]. intros _. rewrite len_cons. pose proof (len_nonneg a'). lia. }
+    destruct Hmp as (mp & -> & Hmp). cbn [option_bind].
+    destruct mp; [apply bump_some; apply IH; specialize (Hmp eq_refl); change (Z.of_nat 1) with 1; lia|].
+    destruct (((c =? 91) || (c =? 93)) && negb (negb (q =? 0))); [apply bump_some; apply IH; lia|].
     destruct ((c =? 62) && negb (negb (q =? 0)) && negb inB); [eauto|].
-    destruct (c =? 0); [eauto|]. destruct (IH q inB) as (r & ->). cbn. eauto.
+    apply bump_some; apply IH; lia.
 Qed.
 
-Lemma scan_doctype_lx z q inB : lx_wf z ->
-  exists n f, scan_doctype q inB (suffix z) = Some (n, f) /\ 0 <= n /\ lpos z + n <= lx_len z /\
+Lemma scan_doctype_lx z : lx_wf z ->
+  exists n f, scan_doctype 0 0 false 0 (suffix z) = Some (n, f) /\ 0 <= n /\ lpos z + n <= lx_len z /\
     (forall i, lpos z <= i < lpos z + n -> getz (lbuf z) i <> 0) /\
     getz (lbuf z) (lpos z + n) = (if f then 62 else 0).
 Proof.
   intros H. destruct (wf_suffix z H) as (a & Ha & Hl). pose proof (wf_range z H) as Hr.
-  destruct (scan_doctype_total a q inB) as ([n f] & Hn). rewrite <- Ha in Hn. exists n, f.
-  split; [exact Hn|]. destruct (scan_doctype_spec _ _ _ _ _ Hn) as (H1 & H2 & H3).
+  destruct (scan_doctype_total a 0%nat 0 false 0) as ([n f] & Hn); [pose proof (len_nonneg a); lia|].
+  rewrite <- Ha in Hn. exists n, f.
+  split; [exact Hn|].
+  assert (Hp0 : forall i, 0 <= i < Z.of_nat 0 -> getz (suffix z) i <> 0) by (intros; lia).
+  destruct (scan_doctype_spec _ _ _ _ _ _ _ Hp0 Hn) as (H1 & H2 & H3).
   rewrite len_suffix in * by assumption.
   split; [lia|]. split; [lia|]. split.
   - intros i Hi. specialize (H2 (i - lpos z)). rewrite getz_suffix in H2 by lia.
